@@ -8,9 +8,16 @@ package shard
 // marks, container removals, a few early GC passes) are applied to one real shard whose
 // remover batch is smaller than the garbage volume.  Then epochs keep advancing and the
 // real GC pass (removeGarbage) is run synchronously until a logical fixed point.  An
-// oracle computed from the history alone says which objects must be gone by then; blob
+// oracle computed from the history says which objects must be gone by then; blob
 // storage is asked through the storage interface and the metabase file is read raw
 // (layout of metabase/VERSION.md) after the shard was closed.
+//
+// Split objects: the removal (tombstone, mark) of a parent extends to the pieces held by
+// the shard only if the shard holds, at that moment, a piece naming the parent (last
+// child, link).  Pieces held without one (the naming pieces never reached this shard, or
+// were collected earlier as redundant replicas) cannot be related to the parent's ID by
+// anything the shard has; for the shard they are not tombstoned/marked objects and the
+// statement demands nothing for them.  Both shapes are generated on purpose.
 
 import (
 	"bytes"
@@ -110,8 +117,6 @@ func vf44SendEpoch(sh *Shard, e uint64) bool {
 	}
 	return false
 }
-
-const vf44Shapes = true
 
 const (
 	vf44Reg = iota
@@ -376,7 +381,7 @@ func (c *vf44Case) newBig(cnr int) {
 	}
 	// every fifth split object reaches this shard without the pieces naming its parent
 	// (placement spreads the pieces of a big object over nodes and shards)
-	partial := vf44Shapes && c.shape.IntN(5) == 0
+	partial := c.shape.IntN(5) == 0
 	if partial {
 		c.r.Count("split_objects_put_without_naming_pieces", 1)
 	}
@@ -453,7 +458,7 @@ func (c *vf44Case) step() {
 			cn, tid = c.slots[t].cnr, c.slots[t].addr.Object()
 		}
 		exp := c.randExp(1)
-		if vf44Shapes && t >= 0 && c.slots[t].kind == vf44Parent && c.shape.IntN(3) == 0 {
+		if t >= 0 && c.slots[t].kind == vf44Parent && c.shape.IntN(3) == 0 {
 			// the pieces naming the parent were found redundant and collected before the
 			// parent's tombstone arrives (collected only if the remover batch got to them)
 			c.markNaming(t)
@@ -468,7 +473,7 @@ func (c *vf44Case) step() {
 		s.addr = verifkit.Addr(s.obj)
 		c.put(c.idx4(s))
 	case w < 74: // operator / policy mark
-		i := c.pick(vf44Reg, vf44Reg, vf44Parent, vf44Child, vf44Lock, vf44Tomb)
+		i := c.pick(vf44Reg, vf44Reg, vf44Parent, vf44Parent, vf44Parent, vf44Child, vf44Lock, vf44Tomb)
 		if i < 0 {
 			return
 		}
@@ -477,7 +482,7 @@ func (c *vf44Case) step() {
 		if rng.IntN(2) == 0 {
 			mark = meta.GarbageMarkRedundant
 		}
-		if vf44Shapes && s.kind == vf44Parent && c.shape.IntN(2) == 0 {
+		if s.kind == vf44Parent && c.shape.IntN(4) == 0 {
 			c.markNaming(i)
 			return
 		}
@@ -575,7 +580,7 @@ func (c *vf44Case) mustGo(i int) string {
 func TestVerif_C44(t *testing.T) {
 	r := verifkit.Start(t, "C44", "exploration")
 	defer r.Finish()
-	r.SetRule("seeded histories (regular and split objects, locks and tombstones with finite/no expiration, default and redundant marks, container removals, early GC passes) on one real shard with remover batch 1..4, then epoch advances and synchronous GC passes until nothing GC can see changes any more; distinct = (reason an object must go x object kind x batch size) observed; non-trivial = a case that left at least one object that must go")
+	r.SetRule("seeded histories (regular and split objects - some without the pieces naming the parent, some whose naming pieces are marked and collected before the parent is removed -, locks and tombstones with finite/no expiration, default and redundant marks, container removals, early GC passes) on one real shard with remover batch 1..4, then epoch advances and synchronous GC passes until nothing GC can see changes any more; distinct = (reason an object must go x object kind x batch size) observed; non-trivial = a case that left at least one object that must go")
 	cases := r.Pick(40, 700)
 	steps := r.Pick(45, 70)
 	base := os.Getenv("VERIF_SCRATCH")
